@@ -81,9 +81,22 @@ pub fn cmd_record(args: &[String]) -> i32 {
             let i = ev["i"].as_u64().unwrap_or(1) as usize;
             if ev["k"] == "clone" {
                 let j = ev["j"].as_u64().unwrap_or(2) as usize;
-                let src = insts[i - 1].as_ref().unwrap();
-                let copy = Inst { xs: src.xs.clone(), last: src.last.clone() };
-                insts[j - 1] = Some(copy);
+                // every other snapshot is taken through the C API (c_api::xeh_snapshot), the rest by State::clone
+                let via_capi = (i + j + descr.len()) % 2 == 0;
+                let src = insts[i - 1].take().unwrap();
+                let last = src.last.clone();
+                let (orig, copy) = if via_capi {
+                    unsafe {
+                        let raw = Box::into_raw(Box::new(src.xs));
+                        let snap = xeh::c_api::xeh_snapshot(raw);
+                        (*Box::from_raw(raw), *Box::from_raw(snap))
+                    }
+                } else {
+                    let c = src.xs.clone();
+                    (src.xs, c)
+                };
+                insts[i - 1] = Some(Inst { xs: orig, last: last.clone() });
+                insts[j - 1] = Some(Inst { xs: copy, last });
                 descr.push(format!("clone {}->{}", i, j));
             } else {
                 let call = ev["c"].as_str().unwrap_or("");
